@@ -68,6 +68,14 @@ Proof.
   intros b Hb. apply I. apply text_blocks_incl. exact Hb.
 Qed.
 
+(* the text blocks of an object the ledger holds were handed out earlier *)
+Lemma held_below m s : wf s -> holds m s -> Forall (fun b => b < ms_next s) (text_blocks m).
+Proof.
+  intros W H. destruct (holds_live m s W H) as (_ & _ & It). apply Forall_forall. intros b Hb.
+  destruct (lt_dec b (ms_next s)) as [Hlt|Hge]; [exact Hlt|exfalso].
+  specialize (It b Hb). apply cnt_In in It. destruct W as [_ W2]. specialize (W2 b ltac:(lia)). unfold L in W2. lia.
+Qed.
+
 (* ================================================================ Part B: two objects, one ledger *)
 (* no block in common *)
 Definition apart (m1 m2 : muri) : Prop := forall b, In b (muri_blocks m1) -> ~ In b (muri_blocks m2).
@@ -158,7 +166,10 @@ Lemma normalize_live csize mask m s : wf s -> nofault s -> owns m s -> mwf m -> 
   exists m' s', normalize_m csize mask m s = (URI_SUCCESS, m', s')
     /\ erase m' = normalize mask (erase m)
     /\ m_owner m' = true /\ all_owned m' = true /\ depends_on_input m' = false
-    /\ mwf m' /\ (m_owner m = false -> fresh_blocks s s' m') /\ (m_owner m = true -> incl (text_blocks m') (text_blocks m))
+    /\ mwf m' /\ (m_owner m = false -> fresh_blocks s s' m')
+    /\ (m_owner m = true ->
+          (forall b, In b (text_blocks m') -> In b (text_blocks m) \/ ms_next s <= b < ms_next s')
+          /\ (path_guard mask (erase m) = false -> incl (text_blocks m') (text_blocks m)))
     /\ nofault s'
     /\ inplace_ok m s m' s'.
 Proof.
@@ -166,11 +177,15 @@ Proof.
   assert (X : exists m' s', normalize_m csize mask m s = (URI_SUCCESS, m', s')
     /\ erase m' = normalize mask (erase m)
     /\ m_owner m' = true /\ all_owned m' = true /\ depends_on_input m' = false
-    /\ mwf m' /\ (m_owner m = false -> fresh_blocks s s' m') /\ (m_owner m = true -> incl (text_blocks m') (text_blocks m))
+    /\ mwf m' /\ (m_owner m = false -> fresh_blocks s s' m')
+    /\ (m_owner m = true ->
+          (forall b, In b (text_blocks m') -> In b (text_blocks m) \/ ms_next s <= b < ms_next s')
+          /\ (path_guard mask (erase m) = false -> incl (text_blocks m') (text_blocks m)))
     /\ nofault s').
   { destruct (m_owner m) eqn:Ho.
-    - destruct (C12_normalize_owned_stmt csize mask m s Hnf Hw Ho Hmask) as (m' & s' & E & R & Ow & A & D & Wf & I & N).
-      exists m', s'. repeat (split; [assumption|]). split; [intros H; discriminate H|]. split; [intros _; exact I|exact N].
+    - destruct (C12_normalize_owned_stmt csize mask m s Hnf Hw Ho (held_below m s W (proj2 O)) Hmask)
+        as (m' & s' & E & R & Ow & A & D & Wf & Fr & I & N).
+      exists m', s'. repeat (split; [assumption|]). split; [intros H; discriminate H|]. split; [intros _; split; [exact Fr|exact I]|exact N].
     - destruct (C12_normalize_borrowed_stmt csize mask m s Hnf Hw Ho Hmask) as (m' & s' & E & R & Ow & A & D & Wf & F & N).
       exists m', s'. repeat (split; [assumption|]). split; [intros _; exact F|]. split; [intros H; discriminate H|exact N]. }
   destruct X as (m' & s' & E & R & Ow & A & D & Wf & F & I & N). exists m', s'.
@@ -443,10 +458,10 @@ Lemma free_members_nofault m s : nofault s -> nofault (snd (free_members m s)).
 Proof. intros H. eapply st_le_nofault; [apply free_members_le|exact H]. Qed.
 
 (* one step of a history keeps: the plan NoFault, well-formedness of every object of the store *)
-Lemma hstep_mwf csize objs s op : nofault s -> Forall mwf objs ->
+Lemma hstep_mwf csize objs s op : balanced objs s -> nofault s -> Forall mwf objs ->
   nofault (snd (hstep csize (objs, s) op)) /\ Forall mwf (fst (hstep csize (objs, s) op)).
 Proof.
-  intros Hnf F. destruct op as [t|i mask|i|compat i j|dr i j|i]; cbn [hstep].
+  intros Bal Hnf F. destruct op as [t|i mask|i|compat i j|dr i j|i]; cbn [hstep].
   - destruct (parse_m_erasure t s Hnf) as (K & _ & _ & _ & N). destruct (parse_m t s) as [[m|pos|] s']; cbn [fst snd] in *.
     + split; [exact N|]. apply Forall_app. split; [exact F|]. constructor; [apply (K m eq_refl)|constructor].
     + split; assumption.
@@ -456,7 +471,9 @@ Proof.
     destruct (N.eq_dec mask 0) as [->|Hmask].
     + rewrite normalize_m_zero. cbn [fst snd]. split; [exact Hnf|]. apply upd_Forall; assumption.
     + destruct (m_owner m) eqn:Ho.
-      * destruct (C12_normalize_owned_stmt csize mask m s Hnf Hw Ho Hmask) as (m' & s' & E & _ & _ & _ & _ & Wf & _ & N).
+      * destruct (balanced_owns objs s i m Bal EN) as [Om _].
+        destruct (C12_normalize_owned_stmt csize mask m s Hnf Hw Ho (held_below m s (proj1 Bal) (proj2 Om)) Hmask)
+          as (m' & s' & E & _ & _ & _ & _ & Wf & _ & _ & N).
         rewrite E. cbn [fst snd]. split; [exact N|]. apply upd_Forall; assumption.
       * destruct (C12_normalize_borrowed_stmt csize mask m s Hnf Hw Ho Hmask) as (m' & s' & E & _ & _ & _ & _ & Wf & _ & N).
         rewrite E. cbn [fst snd]. split; [exact N|]. apply upd_Forall; assumption.
@@ -491,7 +508,7 @@ Lemma hstep_store_ok csize objs s op : store_ok objs s ->
   /\ bad_frees (snd (hstep csize (objs, s) op)) = bad_frees s.
 Proof.
   intros (Bal & Hnf & F). destruct (hstep_balanced csize objs s op Bal) as (B' & Bf & _).
-  destruct (hstep_mwf csize objs s op Hnf F) as (N' & F'). split; [split; [exact B'|split; assumption]|exact Bf].
+  destruct (hstep_mwf csize objs s op Bal Hnf F) as (N' & F'). split; [split; [exact B'|split; assumption]|exact Bf].
 Qed.
 
 Lemma hrun_store_ok csize ops : forall objs s, store_ok objs s ->
@@ -1007,6 +1024,17 @@ Proof.
   destruct (sg_text sg); [reflexivity|]. rewrite Es, X. reflexivity.
 Qed.
 
+Lemma fao_frame m m' s : m_segs m' = m_segs m -> m_abs m' = m_abs m -> m_host_set m' = m_host_set m ->
+  fix_ambiguity_owned_m cs m' s =
+  (let '(ok, m2, s2) := fix_ambiguity_owned_m cs m s in (ok, set_m_segs (m_segs m2) m', s2)).
+Proof.
+  intros E1 E2 E3. assert (X : set_m_segs (m_segs m) m' = m') by (rewrite <- E1; apply set_m_segs_same).
+  unfold fix_ambiguity_owned_m. rewrite E1, E2, E3.
+  destruct (match m_abs m with true => _ | false => _ end); [|rewrite X; reflexivity].
+  destruct (alloc false SEG_SIZE s) as [[id|] s1]; [|rewrite X; reflexivity].
+  destruct (alloc false _ s1) as [[b|] s2]; [reflexivity|rewrite X; reflexivity].
+Qed.
+
 Lemma n_path_sim mask a b done s a' d' x y s' : sim done a b ->
   n_path_full cs mask a done s = (Some (a', d'), x, y, s') ->
   exists b' xb yb, n_path_full cs mask b done s = (Some (b', d'), xb, yb, s') /\ sim d' a' b'.
@@ -1025,11 +1053,19 @@ Proof.
   destruct ok2; [|intros H; discriminate H].
   assert (Hs2 : m_segs (set_m_segs (m_segs b2) (set_m_segs segs a)) = m_segs b2) by reflexivity.
   assert (Hh2 : m_host_set (set_m_segs (m_segs b2) (set_m_segs segs a)) = m_host_set b2) by (rewrite Fb; exact Hh).
-  rewrite (fet_frame b2 _ s2 Hs2 Hh2).
-  pose proof (fet_frame b2 b2 s2 eq_refl eq_refl) as Fc.
-  destruct (fix_empty_trail_m b2 s2) as [b3 s3]. injection Fc as Fc.
+  assert (Ha2 : m_abs (set_m_segs (m_segs b2) (set_m_segs segs a)) = m_abs b2) by (rewrite Fb; exact h11).
+  rewrite (fao_frame b2 _ s2 Hs2 Ha2 Hh2).
+  pose proof (fao_frame b2 b2 s2 eq_refl eq_refl eq_refl) as Fg.
+  destruct (fix_ambiguity_owned_m cs b2 s2) as [[okA bA] sA]. injection Fg as Fg.
+  destruct okA; [|intros H; discriminate H].
+  assert (Hs3 : m_segs (set_m_segs (m_segs bA) (set_m_segs (m_segs b2) (set_m_segs segs a))) = m_segs bA) by reflexivity.
+  assert (Hh3 : m_host_set (set_m_segs (m_segs bA) (set_m_segs (m_segs b2) (set_m_segs segs a))) = m_host_set bA)
+    by (rewrite Fg; exact Hh2).
+  rewrite (fet_frame bA _ sA Hs3 Hh3).
+  pose proof (fet_frame bA bA sA eq_refl eq_refl) as Fc.
+  destruct (fix_empty_trail_m bA sA) as [b3 s3]. injection Fc as Fc.
   intros H. injection H as <- <- _ _ <-. exists b3, b3, (N.lor done B_PATH). split; [reflexivity|].
-  rewrite Fc, Fb. sim_done.
+  rewrite Fc, Fg, Fb. sim_done.
 Qed.
 
 (* ---- the engine, started with any done-mask *)
